@@ -404,10 +404,19 @@ func (d *Def) getChainMethodReturnType(
 	evaluatedT base.T,
 ) base.T {
 
+	visited := map[string]bool{}
+
 	for {
 		if !evaluatedT.IsIdentifierType() {
 			break
 		}
+
+		// a -> b -> a
+		if visited[evaluatedT.ToString()] {
+			break
+		}
+
+		visited[evaluatedT.ToString()] = true
 
 		e.Eval(p, ctx, &evaluatedT)
 
